@@ -54,6 +54,9 @@ def applied(term, what):
     return False
 
 
+SEMANTIC_MEMBERS = ("array", "grad", "eval", "function", "__call__")      # dagger overrides are C02's subject
+
+
 def run_method(m, cls, build, meth):
     def run(sim):
         x = build(sim)
@@ -109,6 +112,11 @@ def check_rebuilds(ctx):
                         rebuilt += 1
                         if not (y.cls is x.cls or y.cls in m.mro(x.cls)):
                             bad.setdefault("class", (label, oracle, "rebuilt as %s" % y.cls.q))
+                        elif y.cls is not x.cls:
+                            # rebuilt as a base class: sound only if the subclass does not redefine what the value means
+                            diff = [nm for nm in SEMANTIC_MEMBERS if (m.lookup(x.cls, nm) or (None, None))[1] is not (m.lookup(y.cls, nm) or (None, None))[1]]
+                            if diff:
+                                bad.setdefault("class", (label, oracle, "rebuilt as the base class %s, which does not share %s with %s" % (y.cls.q, ", ".join(diff), x.cls.q)))
                         for a in KEY:
                             if a == "_data" or (a == "_dagger" and not takes_dagger):
                                 continue        # a dagger flag computed from the data follows the new data
